@@ -360,6 +360,13 @@ def judge_components_init(j, n_components, inp, y, init, random_state,
       else:
         ok = True
     elif opt == 'pca':
+      if max(n, d) > 500 and not (d <= 1000 and n >= 10 * d) and \
+              k < 0.8 * min(n, d):
+        # scikit-learn's PCA picks its randomized solver here: the documented
+        # "PCA components" are then an approximation (seed-dependent), not
+        # the exact principal axes this contract recomputes
+        j.skip(mon, 'pca-randomized-solver-regime')
+        return
       if k <= min(n, d):
         ref = PCA(n_components=k, svd_solver='full').fit(X).components_
         s = np.linalg.svd(X - X.mean(0), compute_uv=False)
